@@ -104,8 +104,12 @@ NON_IDENTIFIER_KEYED: List[str] = [
 LONG_CONTAINERS: List[str] = ["[0] * 1200 + ['a']", "[0] * 1200 + [None, 'a']", "set(range(1500)) | {'a', None}", "[[0]] * 1100 + [['a']]"]
 
 
+# values of classes that look like something else: a frozenset is no `set`
+LOOKALIKES: List[str] = ["frozenset()", "frozenset({0})", "frozenset({0, 'a'})", "[frozenset({0})]", "{'a': frozenset({0})}"]
+
+
 def depth1() -> List[str]:
-    return list(ATOMS) + containers(ATOMS, REPS, REPS3) + STR_SUBCLASS_KEYED + NON_IDENTIFIER_KEYED
+    return list(ATOMS) + containers(ATOMS, REPS, REPS3) + STR_SUBCLASS_KEYED + NON_IDENTIFIER_KEYED + LOOKALIKES
 
 
 # representatives of depth-1 shapes (one per shrink/get_type arm seam) used as elements at depth 2
